@@ -9,6 +9,9 @@ ENGINES = [
 ]
 
 PHASES = {
+    "C18": [
+        {"pkg": "e2", "test": "TestC18HostileInput", "phase": "C18/hostile-streams"},
+    ],
     "C17": [
         {"pkg": "e2", "test": "TestC17MountPoints", "phase": "C17/mount-point-isolation"},
     ],
@@ -66,6 +69,12 @@ PHASES = {
 }
 
 META = {
+    "C18": {
+        "engine": "E2-brokermc",
+        "technique": "exhaustive enumeration of a bounded byte-stream grammar (valid templates x structure-aware mutations x connection contexts) against the in-process broker in crash-contained worker processes, with a witness round trip after every stream",
+        "text": "About 20k (quick) / 60k (thorough) byte streams: 20 valid packet templates (all 14 types, CONNECT and SUBSCRIBE variants), truncated at every offset, with every other first byte (type and flag nibbles), 10 remaining-length encodings incl. over-long and 5-byte forms, every inner length prefix in {0, true-1, true+1, 0xffff}, identifier 0/65535, QoS 3, empty topic lists and protocol-level oddities, each as first packet, after CONNECT and after CONNECT+SUBSCRIBE, plus all ordered pairs of valid packets. After each stream the worker process must be alive, the witness connections open, and a witness QoS 1 publish must be acknowledged and delivered within 10 s.",
+        "note": "Limit: streams outside the grammar are not covered (the claim is the grammar and its size); a client that stops reading is a transport-level behaviour outside the quantifier; transient memory for an announced-but-unsent body is not judged.",
+    },
     "C17": {
         "engine": "E2-brokermc",
         "technique": "explicit enumeration of two-tenant event sequences on the in-process broker, each executed twice for a differential non-interference oracle plus a direct provenance oracle",
